@@ -7,13 +7,14 @@ From EG Require Import Base.Prelude Model.Geometry Proofs.Geometry Model.Fontmod
 
 Theorem C07_text_draw_string_translate : forall F s l p b d q,
   font_ok (mf_geom F) -> draw_ok (mf_geom F) p (length l) -> draw_ok (mf_geom F) (padd p d) (length l) ->
+  index_ok F l ->
   render (fst (draw_string F s l (padd p d) b)) (padd q d) = render (fst (draw_string F s l p b)) q /\
   snd (draw_string F s l (padd p d) b) = padd (snd (draw_string F s l p b)) d.
 Proof. exact draw_string_translate. Qed.
 
 Theorem C07_text_draw_translate : forall F s ts pos d text q,
   font_ok (mf_geom F) ->
-  text_in_range (mf_geom F) s ts pos text -> text_in_range (mf_geom F) s ts (padd pos d) text ->
+  text_in_range F s ts pos text -> text_in_range F s ts (padd pos d) text ->
   render (fst (text_draw F s ts (padd pos d) text)) (padd q d) = render (fst (text_draw F s ts pos text)) q /\
   snd (text_draw F s ts (padd pos d) text) = padd (snd (text_draw F s ts pos text)) d.
 Proof. exact text_draw_translate. Qed.
